@@ -1,5 +1,6 @@
 import TaskModel.Quote.Words
 import TaskModel.Quote.Init
+import TaskModel.Quote.Template
 import Driver.Util
 namespace Driver.Quote
 open TaskModel.Quote Driver
@@ -54,12 +55,10 @@ def doGet : List String → Option String
   | d :: args => do
     let d ← dashTok d
     let args ← args.mapM unhexBytes
-    match get args d with
+    match argsGet args d with
     | .ok (b, a) => some (" ".intercalate (["ok", toString b.length] ++ b.map hexBytes ++ a.map hexBytes))
     | .error off => some ("nul " ++ toString off)
   | _ => none
-
-def lookupVar (k : Bytes) (g : List (Bytes × Bytes)) : Option Bytes := (g.find? (·.1 = k)).map (·.2)
 
 /-- `quote.e2e fwd|var <dash|-1> <arg>*`: the argv the command of the called task must
 receive.  `fwd`: command `REC {{.CLI_ARGS}}`; `var`: command `REC {{shellQuote .X}} {{q .X}}`
@@ -68,7 +67,7 @@ def doE2E : List String → Option String
   | mode :: d :: args => do
     let d ← dashTok d
     let args ← args.mapM unhexBytes
-    match get args d with
+    match argsGet args d with
     | .error _ => some "fail"
     | .ok (before, after) =>
       let (_, globals) := parse before
@@ -108,9 +107,16 @@ def doInit : List String → Option String
     let args ← (r.take n).mapM unhexBytes
     let fs ← parseFS (r.drop n)
     match initRun fs wd args d with
-    | .written p => some ("written " ++ hexBytes p)
+    | .written p => some ("written " ++ hexBytes (clean p))
     | .exists_ _ => some "exists"
     | .error => some "error"
+  | _ => none
+
+/-- `quote.inert <s>` → `inert` | `special` -/
+def doInert : List String → Option String
+  | [s] => do
+    let s ← unhexBytes s
+    some (if templateInert s then "inert" else "special")
   | _ => none
 
 def handle (op : String) (args : List String) : Option String :=
@@ -123,6 +129,7 @@ def handle (op : String) (args : List String) : Option String :=
   | "quote.get" => doGet args
   | "quote.e2e" => doE2E args
   | "quote.init" => doInit args
+  | "quote.inert" => doInert args
   | _ => none
 
 end Driver.Quote
